@@ -11,6 +11,9 @@ What is TRANSLATED (may change shape without an AnchorError; the theorems' guard
   * XString::set() calls clearCachedValues() or not (and XStringBase::clearCachedValues() is `m_cachedNumberValue = 0.0;`);
     XNumber::set() clears m_cachedStringValue or not
   * eXNodeSetCacheMax / eXStringCacheMax / eXNumberCacheMax
+  * XSLT/XResultTreeFrag.cpp: its own theBogusNumberValue; which of the tests `getNodeType() == TEXT_NODE`, `getNextSibling() == 0`
+    getSingleTextChildValue() makes (everything else of XResultTreeFrag pinned, including that StylesheetExecutionContextDefault
+    constructs a new object for every fragment and release()s + destroys it when it comes back, and that set() has no caller)
 What is PINNED token for token (the hand-written machine of coq/XoCacheDefs.v was written against these texts; anything else is
 an AnchorError): XNodeSetBase::num / boolean / six str overloads / stringLength and the constructor initialisers, XNodeSet::item /
 getLength, XStringBase::num / boolean, XString::str overloads / stringLength, XNumber::num / str overloads / stringLength, XNumberBase::boolean,
@@ -130,8 +133,8 @@ def _return_case(enum, cls, var, cache, maxname, alloc, release):
 
 CACHE_FILES = {"XPath/XStringBase.hpp", "XPath/XStringBase.cpp", "XPath/XNodeSetBase.hpp", "XPath/XNodeSetBase.cpp",
                "XPath/XNumber.hpp", "XPath/XNumber.cpp"}
-# a fourth kind with caches of the same design, recycled by StylesheetExecutionContextDefault, NOT part of this machine
-UNMODELLED = {"XSLT/XResultTreeFrag.hpp", "XSLT/XResultTreeFrag.cpp"}
+# a fourth kind with caches of the same design (constructed anew for every fragment, never reused): see _rtf()
+UNMODELLED = {"XSLT/XResultTreeFrag.hpp", "XSLT/XResultTreeFrag.cpp"}     # checked by _rtf() below
 CLEAR_FILES = {"XPath/XStringBase.hpp", "XPath/XNodeSetBase.hpp", "XPath/XNodeSetBase.cpp", "XPath/XString.hpp", "XPath/XNodeSet.cpp"}
 
 
@@ -204,8 +207,117 @@ def _statements(body, allowed, what):
     return sts
 
 
+RTF = "XSLT/XResultTreeFrag.cpp"
+RTF_ASSERT = "assert(m_value->getFirstChild()!=0&&m_value->getFirstChild()->getNodeType()==XalanNode::TEXT_NODE);"
+RTF_NUM = {"XPathExecutionContext&executionContext":
+           "{if(m_cachedNumberValue==theBogusNumberValue){m_cachedNumberValue=DoubleSupport::toDouble(str(executionContext),getMemoryManager());}"
+           "return m_cachedNumberValue;}",
+           "": "{if(m_cachedNumberValue==theBogusNumberValue){m_cachedNumberValue=DoubleSupport::toDouble(str(),getMemoryManager());}"
+               "return m_cachedNumberValue;}"}
+RTF_BOOL = {"XPathExecutionContext&": "{return true;}"}
+RTF_STR = {
+    "XPathExecutionContext&": "{return XResultTreeFrag::str();}",
+    "": "{if(m_singleTextChildValue!=0){" + RTF_ASSERT + "return*m_singleTextChildValue;}else if(m_cachedStringValue.empty()==true)"
+        "{DOMServices::getNodeData(*m_value,m_cachedStringValue);}return m_cachedStringValue;}",
+    "XPathExecutionContext&,FormatterListener&formatterListener,MemberFunctionPtr function": "{XResultTreeFrag::str(formatterListener,function);}",
+    "FormatterListener&formatterListener,MemberFunctionPtr function":
+        "{if(m_singleTextChildValue!=0){" + RTF_ASSERT + "XObject::string(*m_singleTextChildValue,formatterListener,function);}"
+        "else if(m_cachedStringValue.empty()==false){XObject::string(m_cachedStringValue,formatterListener,function);}"
+        "else{DOMServices::getNodeData(*m_value,formatterListener,function);}}",
+    "XPathExecutionContext&,XalanDOMString&theBuffer": "{XResultTreeFrag::str(theBuffer);}",
+    "XalanDOMString&theBuffer":
+        "{if(m_singleTextChildValue!=0){theBuffer.append(*m_singleTextChildValue);}else if(m_cachedStringValue.empty()==false)"
+        "{theBuffer.append(m_cachedStringValue);}else{DOMServices::getNodeData(*m_value,theBuffer);}}",
+}
+RTF_LEN = {"XPathExecutionContext&executionContext":
+           "{if(m_singleTextChildValue!=0){return static_cast<double>(m_singleTextChildValue->length());}else if(m_cachedStringValue.empty()==false)"
+           "{return static_cast<double>(m_cachedStringValue.length());}else{FormatterStringLengthCounter theCounter;DOMServices::getNodeData(*m_value,"
+           "executionContext,theCounter,&FormatterListener::characters);return static_cast<double>(theCounter.getCount());}}"}
+# never reached with an object that is asked again (the object is destroyed after release(); set() has no caller): pinned all the same
+RTF_RELEASE = {"": "{m_singleTextChildValue=0;m_cachedStringValue.clear();m_cachedNumberValue=theBogusNumberValue;"
+                   "XalanDocumentFragment*const temp=m_value;m_value=0;return temp;}"}
+RTF_SET = {"XalanDocumentFragment&theValue": "{release();m_value=&theValue;m_singleTextChildValue=getSingleTextChildValue(*m_value);}"}
+RTF_DEREF = {"": "{if(m_executionContext==0||m_executionContext->returnXResultTreeFrag(this)==false){delete m_value;delete this;}}"}
+RTF_FILES = {"XSLT/StylesheetExecutionContext.hpp", "XSLT/StylesheetExecutionContextDefault.cpp", "XSLT/StylesheetExecutionContextDefault.hpp",
+             "XSLT/XResultTreeFrag.cpp", "XSLT/XResultTreeFrag.hpp", "XSLT/XResultTreeFragAllocator.hpp", "XalanExtensions/FunctionNodeSet.hpp"}
+
+
+def _rtf():
+    """-> (sentinel, text_test, sibling_test) of XSLT/XResultTreeFrag.cpp, after checking that no XResultTreeFrag is ever reused"""
+    _pin(RTF, "XResultTreeFrag", "num", RTF_NUM)
+    _pin(RTF, "XResultTreeFrag", "boolean", RTF_BOOL)
+    _pin(RTF, "XResultTreeFrag", "str", RTF_STR)
+    _pin(RTF, "XResultTreeFrag", "stringLength", RTF_LEN)
+    _pin(RTF, "XResultTreeFrag", "release", RTF_RELEASE)
+    _pin(RTF, "XResultTreeFrag", "set", RTF_SET)
+    _pin(RTF, "XResultTreeFrag", "dereferenced", RTF_DEREF)
+    t = _sq(read(RTF))
+    m = need(r"const double theBogusNumberValue=([-+0-9.eE]+);", t, "XResultTreeFrag.cpp: const double theBogusNumberValue = <literal>;", 0)
+    try:
+        bogus = float(m.group(1))
+    except ValueError:
+        raise AnchorError("XResultTreeFrag.cpp theBogusNumberValue: not a floating literal: " + m.group(1))
+    need(r"XResultTreeFrag::XResultTreeFrag\(XalanDocumentFragment&value,MemoryManager&theManager\):XObject\(eTypeResultTreeFrag,theManager\),"
+         r"m_value\(&value\),m_singleTextChildValue\(getSingleTextChildValue\(value\)\),m_executionContext\(0\),m_cachedStringValue\(theManager\),"
+         r"m_cachedNumberValue\(theBogusNumberValue\)\{\}", t,
+         "XResultTreeFrag(XalanDocumentFragment&, MemoryManager&): m_singleTextChildValue(getSingleTextChildValue(value)), "
+         "m_cachedStringValue(theManager), m_cachedNumberValue(theBogusNumberValue)", 0)
+    m = need(r"inline const XalanDOMString\*getSingleTextChildValue\(const XalanDocumentFragment&theRTreeFrag\)\{const XalanNode\*const theFirstChild="
+             r"theRTreeFrag\.getFirstChild\(\);if\(([^{}]*)\)\{return&theFirstChild->getNodeValue\(\);\}else\{return 0;\}\}", t,
+             "getSingleTextChildValue: theFirstChild = getFirstChild(); if (<tests>) return &theFirstChild->getNodeValue(); else return 0;", 0)
+    tests = m.group(1).split("&&")
+    known = {"theFirstChild!=0": "nonnull", "theFirstChild->getNodeType()==XalanNode::TEXT_NODE": "text", "theFirstChild->getNextSibling()==0": "sibling"}
+    got = []
+    for x in tests:
+        if x not in known:
+            raise AnchorError("getSingleTextChildValue: test not understood: %s" % x[:120])
+        got.append(known[x])
+    if got[:1] != ["nonnull"] or len(set(got)) != len(got):
+        raise AnchorError("getSingleTextChildValue: `theFirstChild != 0` must be tested first, every test once: %r" % got)
+    # every mention of the three members is inside the pinned texts (two constructors: 1 + 2 mentions each of the cached members)
+    exp = {"m_singleTextChildValue": 3, "m_cachedStringValue": 3, "m_cachedNumberValue": 3}
+    for d in (RTF_NUM, RTF_STR, RTF_LEN, RTF_RELEASE, RTF_SET):
+        for b in d.values():
+            for k in exp:
+                exp[k] += b.count(k)
+    for k, n in exp.items():
+        if t.count(k) != n:
+            raise AnchorError("XResultTreeFrag.cpp mentions %s outside the functions the machine models (%d mentions, expected %d)" % (k, t.count(k), n))
+    # never reused: the execution context constructs a new object for every fragment and destroys it when it comes back
+    sc = _sq(read("XSLT/StylesheetExecutionContextDefault.cpp"))
+    if sc.count("m_xresultTreeFragAllocator.create(*theDocumentFragment);theXResultTreeFrag->setExecutionContext(this);") != 2 \
+            or sc.count("m_xresultTreeFragAllocator.create(") != 2:
+        raise AnchorError("StylesheetExecutionContextDefault: fragments are not created by m_xresultTreeFragAllocator.create(*theDocumentFragment) "
+                          "in exactly the two places the machine knows")
+    uses = re.findall(r"theXResultTreeFrag->(\w+)\(", sc)
+    if sorted(uses) != ["release", "setExecutionContext", "setExecutionContext"]:
+        raise AnchorError("StylesheetExecutionContextDefault calls other members of an XResultTreeFrag than the machine knows: %r" % sorted(uses))
+    ret = _overloads("XSLT/StylesheetExecutionContextDefault.cpp", "StylesheetExecutionContextDefault", "returnXResultTreeFrag")
+    b = ret.get("XResultTreeFrag*theXResultTreeFrag", "")
+    i, j = b.find("theXResultTreeFrag->release();"), b.find("m_xresultTreeFragAllocator.destroy(theXResultTreeFrag);")
+    if not (0 <= i < j) or not b.startswith("{assert(theXResultTreeFrag!=0);if(m_xresultTreeFragAllocator.ownsObject(theXResultTreeFrag)==false){return false;}else{"):
+        raise AnchorError("StylesheetExecutionContextDefault::returnXResultTreeFrag: not `release()` followed by `m_xresultTreeFragAllocator.destroy`")
+    al = _sq(read("XSLT/XResultTreeFragAllocator.cpp"))
+    need(r"XResultTreeFragAllocator::create\(XalanDocumentFragment&theValue\)\{data_type\*const theBlock=m_allocator\.allocateBlock\(\);assert\(theBlock!=0\);"
+         r"data_type\*const theResult=new\(theBlock\)data_type\(theValue,m_allocator\.getMemoryManager\(\)\);", al,
+         "XResultTreeFragAllocator::create(XalanDocumentFragment&): placement new data_type(theValue, ...) - a constructor call every time", 0)
+    named = set()
+    for root, dirs, files in os.walk(srcfacts.SRC):
+        for fn in files:
+            if fn.endswith((".cpp", ".hpp")):
+                p = os.path.join(root, fn)
+                with open(p, encoding="utf-8", errors="replace") as f:
+                    if re.search(r"\bXResultTreeFrag\b", f.read()):
+                        named.add(os.path.relpath(p, srcfacts.SRC).replace(os.sep, "/"))
+    if named != RTF_FILES:
+        raise AnchorError("the class XResultTreeFrag is named by another set of files than the machine knows (a caller of set()?): %s"
+                          % sorted(named ^ RTF_FILES))
+    return bogus, "text" in got, "sibling" in got
+
+
 def gen_xocache():
     _scan_tree()
+    rtf_bogus, rtf_text, rtf_sibling = _rtf()
     base = "XPath/XNodeSetBase.cpp"
     _pin(base, "XNodeSetBase", "num", NS_NUM)
     _pin(base, "XNodeSetBase", "boolean", NS_BOOL)
@@ -343,7 +455,8 @@ def gen_xocache():
             return "XoDo %s" % ("XoResetNum" if s[1] == "num" else "XoClearStr")
         return "XoIfStrNonEmpty [%s]" % "; ".join("XoResetNum" if x == "num" else "XoClearStr" for x in s[1])
     facts = {"clear_prog": prog, "bogus": bogus, "release_clears": release_clears, "set_releases": set_releases,
-             "return_releases": return_releases, "xstring_set_clears": xs_clears, "xnumber_set_clears": xn_clears, "cache_max": maxes}
+             "return_releases": return_releases, "xstring_set_clears": xs_clears, "xnumber_set_clears": xn_clears, "cache_max": maxes,
+             "rtf_bogus": rtf_bogus, "rtf_text_test": rtf_text, "rtf_sibling_test": rtf_sibling}
     out = [HEADER, "From Coq Require Import ZArith NArith List Bool.\nRequire Import XV.XoCacheAst.\nImport ListNotations.\n\n",
            "(* XPath/XNodeSetBase.cpp: const double theBogusNumberValue = %s;  (IEEE 754 binary64 bits) *)\n" % m_literal(bogus),
            "Definition gen_xo_bogus_bits : Z := %d%%Z.\n" % bits,
@@ -360,7 +473,13 @@ def gen_xocache():
            "(* XPath/XNumber.cpp set(): m_cachedStringValue.clear() after m_value = theValue *)\n",
            "Definition gen_xo_xnumber_set_clears : bool := %s.\n" % b(xn_clears),
            "(* XPath/XObjectFactoryDefault.hpp: eXNodeSetCacheMax, eXStringCacheMax, eXNumberCacheMax *)\n",
-           "Definition gen_xo_cache_max : N * N * N := (%d, %d, %d)%%N.\n" % tuple(maxes)]
+           "Definition gen_xo_cache_max : N * N * N := (%d, %d, %d)%%N.\n" % tuple(maxes),
+           "(* XSLT/XResultTreeFrag.cpp: const double theBogusNumberValue = %s; *)\n" % m_literal(rtf_bogus),
+           "Definition gen_xo_rtf_bogus_bits : Z := %d%%Z.\n" % struct.unpack(">Q", struct.pack(">d", rtf_bogus))[0],
+           "(* XSLT/XResultTreeFrag.cpp getSingleTextChildValue(): theFirstChild->getNodeType() == XalanNode::TEXT_NODE is tested *)\n",
+           "Definition gen_xo_rtf_text_test : bool := %s.\n" % b(rtf_text),
+           "(* XSLT/XResultTreeFrag.cpp getSingleTextChildValue(): theFirstChild->getNextSibling() == 0 is tested *)\n",
+           "Definition gen_xo_rtf_sibling_test : bool := %s.\n" % b(rtf_sibling)]
     return "".join(out), facts
 
 
